@@ -64,7 +64,7 @@ theorem start_managed (bc : Bytecode) (prev : VM) (h : NoHeap bc.consts) : (prev
     (stack height / number of frames at a call), which the semantics does not have -/
 theorem fn_program (p : RBlock) (Γ' : Gam) (D : List (Nat × FnInfo)) (hy : YTop [] p 0 [] Γ' D)
     (hnd : D.Pairwise (fun x y => x.1 ≠ y.1)) (bc : Bytecode) (hc : compileR p = .ok bc) (F : Nat) :
-    (∃ n, ∀ k, ∃ s', runSteps bc.code (n + k) (VM.start {} bc) = .error .index s') ∨
+    HitsLimit bc ∨
     match evalB F p {} with
     | .val () st' => ∃ mv n, VR (lookupD D) Γ' st'.last mv ∧ st'.out = [] ∧
         ∀ k, ∃ s', runSteps bc.code (n + k) (VM.start {} bc) = .value mv s'
@@ -103,9 +103,9 @@ theorem fn_program (p : RBlock) (Γ' : Gam) (D : List (Nat × FnInfo)) (hy : YTo
   have hsim := ptop hW hy hD (by simp [GamOK]) F {} #[] .null
     ⟨fun _ _ hm => (by cases hm), fun _ _ hm => (by cases hm), trivial, rfl⟩ h1 hpool2
   rcases hsim with hov | hsim
-  · obtain ⟨n, s1, s2, hn, hs⟩ := hov
+  · obtain ⟨n, s1, hn, hl⟩ := hov
     rw [hstart] at hn
-    exact .inl ⟨n + 1, fun k => ⟨s2, run_error bc.code n _ s1 .index s2 hn hs k⟩⟩
+    exact .inl ⟨n, s1, hn, hl⟩
   refine .inr ?_
   cases hr : evalB F p {} with
   | val u st' =>
